@@ -155,7 +155,7 @@ SD = 'src/ska_dict.rs::SkaDict::'
 ob('C01.acc', ['C01', 'C02', 'C15'], 'ska_dict/acc', 'acc_one_kmer', functions=[SD + 'add_to_dict', BE + 'IUPAC', BE + 'decode_base'], inst='u64', caps={'MCAP': 2, 'SCAP': 1, 'RCAP': 1, 'CCAP': 1}, models=['hashbrown'],
    sym='1..=4 observed middle bases of one split k-mer, interleaved with one observation of another k-mer', oracle='exactly one entry per k-mer; stored byte = IUPAC code of the set of bases seen (order/multiplicity independent)',
    bounds='<= 4 observations (every subset of {A,C,G,T} in every order)', timeout=900, mem_gb=8)
-ob('C01.acc.pal', ['C01', 'C15'], 'ska_dict/acc', 'acc_palindrome', functions=[SD + 'add_palindrome_to_dict'], inst='u64', caps={'MCAP': 2, 'SCAP': 1, 'RCAP': 1, 'CCAP': 1}, models=['hashbrown'],
+ob('C01.acc.pal', ['C01', 'C15', 'C02'], 'ska_dict/acc', 'acc_palindrome', functions=[SD + 'add_palindrome_to_dict'], inst='u64', caps={'MCAP': 2, 'SCAP': 1, 'RCAP': 1, 'CCAP': 1}, models=['hashbrown'],
    sym='1..=4 observed middle bases of a self-reverse-complement split k-mer', oracle='entry = code of bases seen plus complements: W, S or N', bounds='<= 4 observations', timeout=900, mem_gb=8)
 
 # ------------------------------------------------------------------ C03.new / C02.cols / C07
